@@ -180,7 +180,7 @@ def c17_crash_cases(cases, repo, max_crashes=6):
             lines += l
             if k == cid:
                 lines += ['{"ev":"died","where":"process"}', '{"ev":"end","forced":false,"note":"process crash"}']
-        pos = [i for i, c in enumerate(todo) if c["id"] == cid][0]
+        pos = [i for i, c in enumerate(todo) if c["id"] == (cid[:-5] if cid.endswith("+post") else cid)][0]
         done += todo[:pos + 1]
         todo = todo[pos + 1:]
         if crashes >= max_crashes:
@@ -296,7 +296,7 @@ def c17(tier, repo=None, only_cases=None):
             vlib.go_must_run(code, output, "C17 replay")
             if FAM[prop]["marker"] % len(cs) not in output:
                 raise Inconclusive("C17 replay: harness did not report all cases\n" + output[-3000:])
-        seen = set(index_cases(lines).keys())
+        seen = {k for k in index_cases(lines).keys() if not k.endswith("+post")}
         if len(seen) < len(cs):     # the harness stops replaying after 20 hanging cases (each is an observation `hang`)
             hangs = sum(1 for ln in lines if ln.startswith('{"ev":"hang"'))
             if not hangs:
@@ -309,8 +309,9 @@ def c17(tier, repo=None, only_cases=None):
     log("  replayed %d cases on the real ToolsNode: %d observation lines, %.0fs%s" % (len(cases), len(lines), wall_go, (", %d process crashes" % crashes) if crashes else ""))
     res = validate(prop, lines)
     idx = index_cases(lines)
-    if len(idx) != len(cases):
-        raise Inconclusive("C17: %d cases sent, %d cases observed" % (len(cases), len(idx)))
+    nposts = sum(1 for k in idx if k.endswith("+post"))     # second, plain call after a call with WithToolList: a case of its own
+    if len(idx) - nposts != len(cases):
+        raise Inconclusive("C17: %d cases sent, %d cases observed" % (len(cases), len(idx) - nposts))
     bad = [(b[0], b[2]) for b in bad_tuples(res)]
     harness_bad = [b for b in bad if b[1] in ("unknown-observation", "line-outside-a-case", "case-not-closed-by-an-end-line", "trace-ends-inside-a-case")]
     if harness_bad:
@@ -321,7 +322,8 @@ def c17(tier, repo=None, only_cases=None):
     confirmed = []
     if bad:
         by_id = {c["id"]: c for c in cases}
-        again = [by_id[cid] for cid, _ in bad[:300]]
+        by_id.update({c["id"] + "+post": c for c in cases})
+        again = list({id(by_id[cid]): by_id[cid] for cid, _ in bad[:300]}.values())
         lines2, _, _, _ = run_cases(again)
         res2 = validate(prop, lines2)
         bad2 = {(b[0], b[2]) for b in bad_tuples(res2)}
